@@ -112,6 +112,8 @@ class Fiber:
     @staticmethod
     def intersection(*fibers, style=None, **kw):
         _ev("intersection", n=len(fibers), style=style)
+        if len({id(f) for f in fibers}) != len(fibers):
+            _ev("intersection_duplicate_operand", n=len(fibers))
         res = fibers[-1]
         for f in reversed(fibers[:-1]):
             res = f & res
